@@ -261,6 +261,40 @@ instance (p) : Decidable (InRange p) := by unfold InRange; infer_instance
 instance (p) : Decidable (Finite p) := by unfold Finite; infer_instance
 end CountVectorizer
 
+/-! ### "Rebuild" setters: setters that construct a NEW parameter struct from `self`
+
+Enumerated in the workspace (by-value setters whose result is not `Self`, struct literals copying `self.0.*`, wrappers
+re-wrapping an inner builder): `GmmParams::with_rng`, `RandomProjectionParams::with_rng` (both change the RNG type and
+copy every other field), and the seven setters of `TfIdfVectorizer` (`Self { count_vectorizer: self.count_vectorizer.f(..),
+method: self.method }`).  Every other setter of the workspace is `mut self; self.0.<field> = v; self`; those that do not
+assign a guarded field are the identity on the translated `Params` (which holds exactly the guarded fields).
+The models below follow the struct literals field by field; `Props/C04` proves that they preserve every guarded field,
+hence the outcome of the guard.  The tie to the code is the correspondence stream `rebuild=…` (the harness applies the
+real setter after / before the value setters and reads the fields back). -/
+
+/-- `GmmParams::with_rng`: `GmmParams(GmmValidParams { n_clusters: self.0.n_clusters, …, max_n_iter: self.0.max_n_iter, …, rng })` -/
+def Gmm.withRng (p : Gen.C04.Gmm.Params) : Gen.C04.Gmm.Params :=
+  { n_clusters := p.n_clusters, tolerance := p.tolerance, reg_covar := p.reg_covar, n_runs := p.n_runs, max_n_iter := p.max_n_iter }
+
+/-- `RandomProjectionParams::with_rng`: `RandomProjectionValidParams { params: self.0.params, rng, marker }` -/
+def RandomProjection.withRng (p : Gen.C04.RandomProjection.Params) : Gen.C04.RandomProjection.Params :=
+  { params := p.params }
+
+/-- a `TfIdfVectorizer` is an unchecked count-vectoriser builder next to a method; each of its setters rebuilds the
+pair around the inner builder's setter: `Self { count_vectorizer: self.count_vectorizer.f(..), method: self.method }` -/
+def tfidfSet {P M : Type} (f : P → P) (w : P × M) : P × M := (f w.1, w.2)
+
+/-- the translated check of the builder after the named rebuild setter (driver entry point; `none`: unknown name).
+Setters that do not assign a guarded field act as the identity on `Params`. -/
+def checkRebuilt (name variant : String) (toks : List String) : Option (Except String Unit) :=
+  let fam := (variant.splitOn ":").headD ""
+  match name, fam with
+  | "Gmm", "with_rng" => (Gen.C04.Gmm.parse toks).map fun p => Gen.C04.Gmm.check (Gmm.withRng p)
+  | "RandomProjection", "with_rng" => (Gen.C04.RandomProjection.parse toks).map fun p => Gen.C04.RandomProjection.check (RandomProjection.withRng p)
+  | _, "other" => Gen.C04.checkByName name toks
+  | _, "rev" => Gen.C04.checkByName name toks
+  | _, _ => none
+
 /-- decidable range / finiteness by builder name (driver entry point): `(inRange, finite)` -/
 def rangeByName (name : String) (toks : List String) : Option (Bool × Bool) :=
   match name with
